@@ -10,7 +10,8 @@ open XpmVerif.Sched
 /-- the source with the four scheduler repairs (F3, F4, F5, F32). -/
 def repaired : Flags := { readyGuarded := true, resubmitRegisters := true, abortRechecks := true, abortReleases := true }
 
-/-- split every remaining `if` / `match`, close each leaf by `rfl` or `simp_all`. -/
-macro "src_auto" : tactic => `(tactic| (repeat' (first | rfl | (simp_all; done) | split)))
+/-- split every remaining `if` / `match`, close each leaf by `rfl`, `simp_all` or linear arithmetic. -/
+macro "src_auto" : tactic =>
+  `(tactic| (repeat' (first | rfl | (simp_all; done) | omega | (simp_all; omega) | split)))
 
 end XpmVerif.SchedSrc
